@@ -49,7 +49,7 @@ def explore(res, tier, seed, model_ok=True):
     nbase = 30 if tier == 'quick' else 250
     res.rule = ('%d base scenarios (17 fixed - three of them wss:// connections, whose socket has unwrap()/pending() like an SSLSocket - covering every yield point of run(): Connecting, ConnectFail, Connected, housekeeping Poll, Unresponsive, Ready, messages, Closing, Closed, Rejected, ProtocolError, Disconnected; rest random) '
                 'x every event index x 4 abandonment mechanisms (generator close(), break+drop, exception in handler, exception leaving a with-block); '
-                'a sample of the same abandonments as the second connection on an object whose first connection ran in a with-block / raised / was closed by the server; the generator closed while ANOTHER THREAD is inside a send (plain, compressed, ping, close()) at every sync point of that send (deterministic scheduler of C11); oracle: simulated socket and selector both closed afterwards; non-trivial = abandonment at an event where a socket exists; distinct by (scenario, index, mechanism)') % nbase
+                'a sample of the same abandonments as the second connection on an object whose first connection ran in a with-block / raised / was closed by the server; the generator closed while ANOTHER THREAD is inside a send (plain, compressed, ping, close()) at every sync point of that send (deterministic scheduler of C11; each run compared with the thread model, loop call `.abandon`, on step log, chunks, results and flags); oracle: simulated socket and selector both closed afterwards; non-trivial = abandonment at an event where a socket exists; distinct by (scenario, index, mechanism)') % nbase
     import closesock
     closesock.run(res, model_ok)
     bases = base_scenarios(rng, nbase)
@@ -83,7 +83,7 @@ def explore(res, tier, seed, model_ok=True):
             res.failures.append(dict(cls='leak-at-' + evname, what='abandoning at %s by %s leaves %s open' % (evname, mech, 'socket' if 'sock=1' in end else 'selector'),
                                      input=line[-1200:], scenario=js, observed=end))
     coreutil.check_corr(res, pairs)
-    explore_threads(res, tier)
+    explore_threads(res, tier, model_ok)
     # the same abandonments on an object with a history: earlier connections on the SAME WebSocket object that were used
     # inside a with-block / abandoned in other ways (state kept on the object must not keep the new connection's generator alive)
     g = Scenario([]).good_reply()
@@ -158,7 +158,10 @@ def explore(res, tier, seed, model_ok=True):
 def thread_cases(tier):
     """the consumer walks away (the loop thread closes the event generator) WHILE another thread is inside a send - before it, inside
     the write lock at every sync point (also of a compressed send: compress, flush, the chunks of sendall), after it: whatever the
-    interleaving, the socket is closed once both threads are done.  (harness/sched.py, loop program `ab`; oracle only)"""
+    interleaving, the socket is closed once both threads are done.  (harness/sched.py, loop program `ab`; compared with the thread
+    model - loop call `.abandon` - and judged by the oracle.)  `abandon-window`: the sender gets the lock right after the loop has shut the
+    socket down and before `_sock = None` / `closed = True` are stored: its sendall fails on the closed socket (TransportFail); the thread
+    model has no failing write on a shut socket, so these few runs are judged by the oracle alone and counted."""
     import props.c11 as c11
     out = []
     shapes = [(0, ['st0']), (1, ['st1']), (2, ['sb1']), (1, ['sb1', 'st0']), (0, ['pi']), (0, ['cl'])]
@@ -168,19 +171,43 @@ def thread_cases(tier):
             for back in ((0,) if tier == 'quick' else (0, 1, 3)):
                 out.append(dict(z=z, progs=[prog, ['ab']], mode='sync', family='abandon-while-sending',
                                 schedule=[0] * j + [1] * (3 + back) + [0] * back + [1] * 40))
+        # the loop up to its release (rd:sock, acq, sockclose, rel), the sender k steps, the loop one store at a time
+        for j in (0, 1):
+            for k in (1, 2, 3, 4, 5, 8):
+                for m in (0, 1, 2, 3):
+                    out.append(dict(z=z, progs=[prog, ['ab']], mode='sync', family='abandon-window',
+                                    schedule=[0] * j + [1] * 4 + [0] * k + [1] * m + [0] * 12 + [1] * 40))
     return out
 
 
-def explore_threads(res, tier):
+def explore_threads(res, tier, model_ok=True):
     import thrutil
     cases = thread_cases(tier)
-    for c, r in zip(cases, runner.parallel_map('thrutil', 'real_case', cases, chunk=20)):
+    reals = runner.parallel_map('thrutil', 'real_case', cases, chunk=20)
+    todo = [(c, r) for c, r in zip(cases, reals) if '__crash__' not in r and not thrutil.dead_writes(r)]
+    lines = [thrutil.model_line(c, r['steps']) for c, r in todo]
+    models = dict(zip((id(r) for _, r in todo), runner.model_run(lines) if (model_ok and lines) else [None] * len(lines)))
+    mlines = dict(zip((id(r) for _, r in todo), lines))
+    for c, r in zip(cases, reals):
         if '__crash__' in r:
             res.crashes.append(r); continue
-        res.case(('abandon-while-sending', c['z'], tuple(c['progs'][0]), tuple(t for t, _ in r['steps'])), nontrivial=True)
+        res.case((c['family'], c['z'], tuple(c['progs'][0]), tuple(t for t, _ in r['steps'])), nontrivial=True)
         res.count('abandon_while_another_thread_sends')
+        res.count('family_' + c['family'])
+        if any(k == 'blocked' for t, k in r['steps'] if t == 1):
+            res.count('abandon_waited_for_the_write_lock')
         if r['problems']:
             res.diffs.append(dict(input=c, real=' '.join('%d:%s' % x for x in r['steps'])[-1200:], model='(harness) ' + '; '.join(r['problems'])[:800]))
+        m = models.get(id(r))
+        if thrutil.dead_writes(r):
+            res.count('oracle_only_write_attempted_on_socket_already_shut_by_the_loop (model gap: no failing write on a shut socket)')
+        elif m is not None:
+            res.traces_validated += 1
+            res.count('abandon_compared_with_thread_model')
+            real_line = thrutil.canon_real(c, r)
+            mm, peer = thrutil.strip_peer(m)
+            if mm != real_line:
+                res.diffs.append(dict(input=c, line=mlines[id(r)], real=real_line[-2500:], model=mm[-2500:]))
         if not r['flags']['shut']:
             res.failures.append(dict(cls='leak-while-sending', what='the event generator was closed while another thread was inside %s; both threads have finished and the socket is still open' % c['progs'][0],
                                      input=dict(threads=c), observed=' '.join('%d:%s' % x for x in r['steps'])[-1200:]))
